@@ -52,6 +52,8 @@ type c12Case struct {
 	IgnoreGaps bool     `json:"ignore_gaps,omitempty"`
 	IgnoreNs   bool     `json:"ignore_ns,omitempty"`
 	Reverse    bool     `json:"reverse,omitempty"`
+	// CLI: the case runs goalign clean sites / clean seqs and compares with the library call (c12_cli.go)
+	CLI bool `json:"cli,omitempty"`
 }
 
 const (
@@ -1153,6 +1155,7 @@ func c12Tasks(tier string) []mc.Task {
 			ts = c12Block(ts, "grid4", a, c12Sigma4, 4, 2, c12ProfGrid)
 		}
 	}
+	ts = append(ts, c12CLITasks(thorough)...)
 	return ts
 }
 
@@ -1166,6 +1169,7 @@ func init() {
 			"(4) ties: every 1-column alignment of 5..10 [6..12] rows over {A,-} (site operations, set {A}, ends x ignoreGaps x reverse) and every 1-row alignment of 5..10 [6..12] sites over {A,-} (sequence operations, character A), same cutoff family; " +
 			"(5) ends mode: every 1-row alignment of 5..9 [6..10] sites over {A,-,W} and every 2-row alignment of 4..5 [4..7] sites over {A,-}: the three site operations, sets {-},{A},{A,W} x 2^5, cutoffs 0, 1/2, 1; " +
 			"(6) every 2x3 and 3x2 alignment over {A,a,-,W,w,O} [plus every 3x3, 2x4, 4x2 alignment over {A,-,W,O}]: all five operations, sets {A},{A,W} x 2^5, sequences with A x 2^3, cutoffs 0, 1/3, 1/2, 2/3, 1 [plus every 6x1 and 1x6 alignment over {A,a,-,W,O} with the configurations of (1)]. " +
+			"(7) command line: goalign clean sites / clean seqs (in process, files in a private directory) for --char GAP, MAJ, A, aW, A- (sites) and GAP, A, W, a (seqs) x every combination of --ends/--reverse/--ignore-case/--ignore-gaps/--ignore-n the command passes on x cutoffs 0, 1/2, 1, -1, 1.5, 1/3 x every 2x2 alignment over {A,a,-,W} [{A,a,-,W,w,O}] and 4 larger ones, both alphabets: output file, --positions and --positions-rm must equal what the library call with the same options returns (combinations the command documents as errors must be refused or agree). " +
 			"Each call is compared with an oracle written from the statement and the documentation: per site (sequence) count/total over the rows (sites) not excluded by ignore-gaps / ignore-N-or-X of the own alphabet, removal iff count/total >= cutoff in exact rational arithmetic on the float64 passed (count > 0 when the cutoff is 0 or outside [0,1]), maximal qualifying prefix and suffix in ends mode, kept/removed a partition of the columns, first/last the numbers of leading/trailing removed columns, result = selection of the kept columns (rows) with names, order and Length(). " +
 			"A case is non-trivial when the whole call was compared and at least one of its sites (sequences) has 0 < count < total, i.e. a verdict that depends on the cutoff; distinct = distinct (operation, alphabet, alignment, characters, options, cutoff bits).",
 		Assumptions: []string{
@@ -1192,6 +1196,11 @@ func init() {
 					}
 				}
 				c.Fatal("bad payload %s", payload)
+				return
+			}
+			if cs.CLI {
+				defer c12DropBox()
+				c12CheckCLI(c, &cs)
 				return
 			}
 			c12Check(c, &cs)
